@@ -363,16 +363,26 @@ pub assume_specification [usize::next_power_of_two] (x: usize) -> (r: usize)
     ensures r == np2(x as int);
 pub assume_specification<T> [core::mem::replace] (a: &mut T, b: T) -> (r: T) ensures r == *old(a), *final(a) == b;
 
+/// the value a `Borrow`/`BorrowMut` implementor lends out (A7: `borrow` and `borrow_mut` lend the same object,
+/// and what is written through `borrow_mut` is what is lent next time)
+pub uninterp spec fn vx_borrowed<T: ?Sized, B: ?Sized>(t: &T) -> &B;
 #[verifier::external_trait_specification]
 pub trait ExBorrow<Borrowed: ?Sized> {
     type ExternalTraitSpecificationFor: core::borrow::Borrow<Borrowed>;
-    fn borrow(&self) -> &Borrowed;
+    fn borrow(&self) -> (r: &Borrowed)
+        ensures r == vx_borrowed::<Self, Borrowed>(self);
 }
 #[verifier::external_trait_specification]
 pub trait ExBorrowMut<Borrowed: ?Sized>: core::borrow::Borrow<Borrowed> {
     type ExternalTraitSpecificationFor: core::borrow::BorrowMut<Borrowed>;
-    fn borrow_mut(&mut self) -> &mut Borrowed;
+    fn borrow_mut(&mut self) -> (r: &mut Borrowed)
+        ensures vx_same::<Borrowed>(&*r, vx_borrowed::<Self, Borrowed>(old(self))),
+                vx_same::<Borrowed>(&*final(r), vx_borrowed::<Self, Borrowed>(final(self)));
 }
+pub uninterp spec fn vx_same<B: ?Sized>(a: &B, b: &B) -> bool;
+pub broadcast axiom fn ax_vx_same<B>(a: &B, b: &B)
+    ensures #[trigger] vx_same::<B>(a, b) == (*a == *b);
+pub open spec fn vx_borrow_spec<T: BorrowMut<Transcript>>(t: &T) -> Transcript { *vx_borrowed::<T, Transcript>(t) }
 #[verifier::external_trait_specification]
 pub trait ExSum<A>: Sized {
     type ExternalTraitSpecificationFor: core::iter::Sum<A>;
